@@ -78,8 +78,20 @@ def _worker(case):
     signal.setitimer(signal.ITIMER_PROF, limit)
     signal.setitimer(signal.ITIMER_REAL, 10 * limit)
     try:
-        r = _MOD.run_impl(case)
-        return ('ok', r)
+        try:
+            r = _MOD.run_impl(case)
+            return ('ok', r)
+        except CaseTimeout:
+            # non-termination and super-linear time are deterministic; a stalled machine is not (false alarm met in round 10:
+            # a 43-operation history of C02, milliseconds of work, ran into the backstop inside a memory-capped background
+            # run at load 40).  The case is run ONCE more under the same limits; only a second timeout is a finding.
+            signal.setitimer(signal.ITIMER_PROF, limit)
+            signal.setitimer(signal.ITIMER_REAL, 10 * limit)
+            r = _MOD.run_impl(case)
+            if isinstance(r, dict):
+                r.setdefault('stats', {})
+                r['stats']['case_timed_out_once_and_finished_on_retry'] = r['stats'].get('case_timed_out_once_and_finished_on_retry', 0) + 1
+            return ('ok', r)
     except CaseTimeout:
         return ('ok', {'obs': 'timeout', 'nontrivial': False,
                        'd_fail': [{'sig': 'no-termination', 'what': 'the implementation did not finish this case within %ss of CPU '
